@@ -5,6 +5,7 @@ definitions (`inter`, `Cat`, `Sig.triples`, `counted`, `sumOver`, `wsum`, `Graph
 `Score.InUnit`, `Score.swap`) are in Lemmas.lean.
 -/
 import Verif.C18.Lemmas
+import Verif.Generated.TablesC18
 
 namespace Verif.C18
 
@@ -232,5 +233,142 @@ example : (⟨1, 0, 0, 0, 0⟩ : Weights).Nonneg ∧ 0 < (⟨1, 0, 0, 0, 0⟩ : 
   refine ⟨fun c => ?_, ?_⟩
   · cases c <;> simp [Weights.get] <;> decide
   · simp [Weights.get]; decide
+
+end Verif.C18
+
+namespace Verif.C18
+open Verif.Tables
+
+/-! ## Pins: the constants, defaults and names of the anchored code that the hand-written model mirrors
+
+`TablesC18.lean` is regenerated on every run from the live code objects (interpreter of /venv,
+CPython 3.12): parameter names and default values, the numeric/string constants (`co_consts`, nested
+code objects included) and the global/attribute names read (`co_names`) of every function the model
+mirrors.  Left out as semantically irrelevant: docstrings, the texts handed to the logger (every string
+constant of `compute` and `_accumulate` is one) and the names of the logging machinery.
+Which model definition hand-codes what:
+* `edm.compute` (five weights defaulting to 1.0, both ignore flags to False, the 15 `totals.<category>.<count>`
+  reads in the order name/argument/property/constant/top × gold/test/both) — `total`, `scoreOf`, `computeS`,
+  `compute`; the defaults are what the oracle's default-argument call relies on;
+* `edm._accumulate` (`zip_longest`, `EDS()` for a missing member, the zero `_Match`, `add`) — `zipLongest`,
+  `pairMatch`, `accLoop`, `accumulate`, `Match.zero`, `Graph.empty`; `_Count.add`/`_Match.add` and the
+  field orders — `Count.add`, `Match.add`, `Count`, `Match`, `Score`;
+* `edm._match` (constants 1/0, `top`, the four `_count` calls) — `topCount`, `matchSig`;
+  `edm._count` (`Counter`, `min`, `sum`, `len`) — `both`, `countTriples`;
+* `edm._prf` (0, 0.0, 2) — `prf`; `edm._span` (`cfrom`, `cto`) — `Lnk.span`, `Node.span`;
+* `edm._names` (`predicate`, `None` placeholder) — `names`, `Val.none`; `edm._arguments` (`arguments()`, `id`,
+  membership test) — `arguments`, `argsOf`; `edm._properties` (`properties.items()`) — `properties`;
+  `edm._constants` (`carg`, the literal 'carg') — `constants`, `cargRole`;
+* `DMRS.arguments` (skips `BARE_EQ_ROLE` links first, `args[link.start]`, role/end) and its defaults
+  `types=None, expressed=None` — `argsOf`/`argsOk` (dmrs branch), `modRole`; `_normalize_top_and_links`,
+  `DMRS.__init__` (`TOP_NODE_ID`) — `mkDmrs`; `EDS.arguments` (`args[node.id] = []`, `edges.items()`,
+  `types=None`) — `argsOf` (eds branch);
+* `SemanticStructure.__init__/__contains__/__getitem__` (`_pidx` built by a dict comprehension over
+  `predications`: last node with an id wins) — `lookup`, `topSpan`;
+* `LnkMixin.cfrom/cto` (default -1, `data[0]`/`data[1]`, only for `Lnk.CHARSPAN` = 1 of the five lnk types) —
+  `Lnk.span`, `Lnk`; `Lnk.charspan` — the driver's `ofLnk`.
+A change to any of them must be followed in the model: this theorem stops checking, which the check
+reports as a broken proof obligation and then searches for a failing input. -/
+theorem c18_pins :
+    c18BareEqRole = ['M', 'O', 'D'] ∧ c18TopNodeId = 0 ∧ c18Pins = [
+    ("edm.compute.params", ["golds", "tests", "name_weight", "argument_weight", "property_weight", "constant_weight", "top_weight", "ignore_missing_gold", "ignore_missing_test"]),
+    ("edm.compute.defaults", ["1.0", "1.0", "1.0", "1.0", "1.0", "False", "False"]),
+    ("edm.compute.consts", []),
+    ("edm.compute.names", ["_accumulate", "name", "gold", "argument", "property", "constant", "top", "test", "both", "_prf"]),
+    ("edm._accumulate.params", ["golds", "tests", "ignore_missing_gold", "ignore_missing_test"]),
+    ("edm._accumulate.defaults", []),
+    ("edm._accumulate.consts", ["0", "1"]),
+    ("edm._accumulate.names", ["_Match", "_Count", "enumerate", "zip_longest", "EDS", "isinstance", "DMRS", "_match", "name", "_prf", "argument", "property", "constant", "top", "add"]),
+    ("edm._match.params", ["gold", "test"]),
+    ("edm._match.defaults", []),
+    ("edm._match.consts", ["1", "0"]),
+    ("edm._match.names", ["top", "_span", "_Count", "_Match", "_count", "_names", "_arguments", "_properties", "_constants"]),
+    ("edm._count.params", ["func", "gold", "test"]),
+    ("edm._count.defaults", []),
+    ("edm._count.consts", []),
+    ("edm._count.names", ["Counter", "sum", "_Count", "len"]),
+    ("edm._count.<genexpr>.consts", ["None"]),
+    ("edm._count.<genexpr>.names", ["min"]),
+    ("edm._prf.params", ["g", "t", "b"]),
+    ("edm._prf.defaults", []),
+    ("edm._prf.consts", ["None", "0", "0.0", "2"]),
+    ("edm._prf.names", ["_Score"]),
+    ("edm._span.params", ["node"]),
+    ("edm._span.defaults", []),
+    ("edm._span.consts", []),
+    ("edm._span.names", ["cfrom", "cto"]),
+    ("edm._names.params", ["sr"]),
+    ("edm._names.defaults", []),
+    ("edm._names.consts", ["None"]),
+    ("edm._names.names", ["nodes", "append", "_span", "predicate"]),
+    ("edm._arguments.params", ["sr"]),
+    ("edm._arguments.defaults", []),
+    ("edm._arguments.consts", []),
+    ("edm._arguments.names", ["arguments", "nodes", "_span", "id", "append"]),
+    ("edm._properties.params", ["sr"]),
+    ("edm._properties.defaults", []),
+    ("edm._properties.consts", []),
+    ("edm._properties.names", ["nodes", "_span", "properties", "items", "append"]),
+    ("edm._constants.params", ["sr"]),
+    ("edm._constants.defaults", []),
+    ("edm._constants.consts", ["'carg'"]),
+    ("edm._constants.names", ["nodes", "carg", "append", "_span"]),
+    ("edm._Count.add.consts", ["None"]),
+    ("edm._Count.add.names", ["_Count", "gold", "test", "both"]),
+    ("edm._Match.add.consts", ["None"]),
+    ("edm._Match.add.names", ["_Match", "name", "add", "argument", "property", "constant", "top"]),
+    ("edm._Count._fields", ["gold", "test", "both"]),
+    ("edm._Match._fields", ["name", "argument", "property", "constant", "top"]),
+    ("edm._Score._fields", ["precision", "recall", "fscore"]),
+    ("dmrs.DMRS.arguments.params", ["self", "types", "expressed"]),
+    ("dmrs.DMRS.arguments.defaults", ["None", "None"]),
+    ("dmrs.DMRS.arguments.consts", []),
+    ("dmrs.DMRS.arguments.names", ["nodes", "id", "variable", "HANDLE", "links", "role", "BARE_EQ_ROLE", "post", "H_POST", "HEQ_POST", "end", "type", "start", "append"]),
+    ("dmrs._normalize_top_and_links.params", ["top", "links"]),
+    ("dmrs._normalize_top_and_links.defaults", []),
+    ("dmrs._normalize_top_and_links.consts", []),
+    ("dmrs._normalize_top_and_links.names", ["start", "TOP_NODE_ID", "end", "append"]),
+    ("dmrs.constants", ["BARE_EQ_ROLE='MOD'", "TOP_NODE_ID=0", "H_POST='H'", "HEQ_POST='HEQ'"]),
+    ("eds.EDS.arguments.params", ["self", "types"]),
+    ("eds.EDS.arguments.defaults", ["None"]),
+    ("eds.EDS.arguments.consts", ["None"]),
+    ("eds.EDS.arguments.names", ["nodes", "id", "type", "edges", "items", "get", "append"]),
+    ("dmrs.DMRS.__init__.params", ["self", "top", "index", "nodes", "links", "lnk", "surface", "identifier"]),
+    ("dmrs.DMRS.__init__.defaults", ["None", "None", "None", "None", "None", "None", "None"]),
+    ("dmrs.DMRS.__init__.consts", ["None"]),
+    ("dmrs.DMRS.__init__.names", ["_normalize_top_and_links", "int", "super", "__init__", "list", "links"]),
+    ("dmrs.Node.__init__.params", ["self", "id", "predicate", "type", "properties", "carg", "lnk", "surface", "base"]),
+    ("dmrs.Node.__init__.defaults", ["None", "None", "None", "None", "None", "None"]),
+    ("dmrs.Node.__init__.consts", ["None"]),
+    ("dmrs.Node.__init__.names", ["int", "super", "__init__", "properties", "carg"]),
+    ("dmrs.Link.__init__.params", ["self", "start", "end", "role", "post"]),
+    ("dmrs.Link.__init__.defaults", []),
+    ("dmrs.Link.__init__.consts", ["None"]),
+    ("dmrs.Link.__init__.names", ["int", "start", "end", "role", "post"]),
+    ("eds.EDS.__init__.params", ["self", "top", "nodes", "lnk", "surface", "identifier"]),
+    ("eds.EDS.__init__.defaults", ["None", "None", "None", "None", "None"]),
+    ("eds.EDS.__init__.consts", ["None"]),
+    ("eds.EDS.__init__.names", ["super", "__init__", "list"]),
+    ("eds.Node.__init__.params", ["self", "id", "predicate", "type", "edges", "properties", "carg", "lnk", "surface", "base"]),
+    ("eds.Node.__init__.defaults", ["None", "None", "None", "None", "None", "None", "None"]),
+    ("eds.Node.__init__.consts", ["None"]),
+    ("eds.Node.__init__.names", ["super", "__init__", "edges", "properties", "carg"]),
+    ("sembase.SemanticStructure.__init__.params", ["self", "top", "predications", "lnk", "surface", "identifier"]),
+    ("sembase.SemanticStructure.__init__.defaults", []),
+    ("sembase.SemanticStructure.__init__.consts", ["None"]),
+    ("sembase.SemanticStructure.__init__.names", ["super", "__init__", "top", "predications", "id", "_pidx", "identifier"]),
+    ("sembase.SemanticStructure.__contains__.consts", ["None"]),
+    ("sembase.SemanticStructure.__contains__.names", ["_pidx"]),
+    ("sembase.SemanticStructure.__getitem__.consts", ["None"]),
+    ("sembase.SemanticStructure.__getitem__.names", ["KeyError", "_pidx"]),
+    ("lnk.LnkMixin.cfrom.consts", ["-1", "0"]),
+    ("lnk.LnkMixin.cfrom.names", ["lnk", "type", "Lnk", "CHARSPAN", "data", "AttributeError"]),
+    ("lnk.LnkMixin.cto.consts", ["-1", "1"]),
+    ("lnk.LnkMixin.cto.names", ["lnk", "type", "Lnk", "CHARSPAN", "data", "AttributeError"]),
+    ("lnk.Lnk.charspan.consts", []),
+    ("lnk.Lnk.charspan.names", ["Lnk", "CHARSPAN", "int"]),
+    ("lnk.Lnk.types", ["UNSPECIFIED=0", "CHARSPAN=1", "CHARTSPAN=2", "TOKENS=3", "EDGE=4"])
+    ] := by
+  refine ⟨?_, ?_, ?_⟩ <;> rfl
 
 end Verif.C18
